@@ -172,6 +172,15 @@ var c14Codec = probe.Define("C14", "codec", func(t *rapid.T) c14In {
 	if !got.Equal(e) {
 		return probe.Fail("decode(encode(e)) != e: %s != %s", model.Clip(model.JSON(got.Normalize())), model.Clip(model.JSON(e.Normalize())))
 	}
+	// a receive loop may decode packet after packet into one EAP value: the second decoding yields the second packet, nothing
+	// of the first is left in it
+	if err := probe.Try(func() error { return back.Unmarshal(rx) }); err != nil {
+		return probe.Fail("Unmarshal of the encoding into an EAP value that has decoded a packet before: %v", err)
+	}
+	if again, err := bridge.FromLibEAP(back); err != nil || !again.Equal(e) {
+		return probe.Fail("decoding a packet into an EAP value that has decoded a packet before gives a different result: %s != %s (%v)",
+			model.Clip(model.JSON(again.Normalize())), model.Clip(model.JSON(e.Normalize())), err)
+	}
 	var w3 []byte
 	if err := probe.Try(func() error { var x error; w3, x = back.Marshal(); return x }); err != nil || !bytes.Equal(w, w3) {
 		return probe.Fail("re-encoding the decoded packet gives different bytes (%v)", err)
